@@ -1027,6 +1027,7 @@ def flex_children(box, children):
             if isinstance(child, boxes.InlineBlockBox):
                 anonymous = boxes.BlockBox.anonymous_from(child, child.children)
                 anonymous.style = child.style
+                anonymous.is_table_wrapper = child.is_table_wrapper
                 anonymous.is_flex_item = True
                 flex_children.append(anonymous)
             elif isinstance(child, boxes.InlineLevelBox):
@@ -1072,6 +1073,7 @@ def grid_children(box, children):
             if isinstance(child, boxes.InlineBlockBox):
                 anonymous = boxes.BlockBox.anonymous_from(child, child.children)
                 anonymous.style = child.style
+                anonymous.is_table_wrapper = child.is_table_wrapper
                 anonymous.is_grid_item = True
                 grid_children.append(anonymous)
             elif isinstance(child, boxes.InlineLevelBox):
